@@ -149,13 +149,14 @@ theorem callbacks_step (s : St) (e : Ev) :
     intro y hy
     right; right
     refine ⟨(h2 y hy).1, ?_, hd, (h2 y hy).2, ?_⟩
-    · rcases he with ⟨rfl, _⟩ | ⟨rfl, _⟩ | ⟨rfl, _⟩ | ⟨id, i, n, codes, c, rfl, _, hm, hc, hp, hk, hl⟩
+    · rcases he with ⟨rfl, _⟩ | ⟨rfl, _⟩ | ⟨rfl, _⟩ | ⟨id, i, n, codes, c, rfl, _, hm, hc, hp, hk, hl⟩ | ⟨p, rfl, _, hf⟩
       · simp [endsConn, hi]
       · simp [endsConn, hi]
       · simp [endsConn, hi]
       · simp [endsConn, hi, subAckMismatch, hm, hc, hp, hk, hl]
+      · cases p <;> first | (simp [ackFails, needsAck] at hf; done) | simp [endsConn, hi, hf]
     · intro id hid
-      rcases he with ⟨rfl, _⟩ | ⟨rfl, _⟩ | ⟨rfl, _⟩ | ⟨_, _, _, _, _, rfl, _⟩ <;> cases hid
+      rcases he with ⟨rfl, _⟩ | ⟨rfl, _⟩ | ⟨rfl, _⟩ | ⟨_, _, _, _, _, rfl, _⟩ | ⟨_, rfl, _⟩ <;> cases hid
 
 /-- An Active callback is appended only by the step `inb (connack _ 0)` taken while the Connect call
     (kind `connect`, by `Sound`) registered in the CONNACK slot is in phase `waitConnAck`. -/
@@ -335,6 +336,223 @@ theorem no_closed_before_end (evs : List Ev) (hd : (run evs).doneClosed = false)
 theorem done_iff_ended (evs : List Ev) : (run evs).doneClosed = true ↔ C11.endedBy evs = true :=
   C11.done_iff_reader_finished evs
 
+/-! ### Inbound application messages: a failing acknowledgement write closes the connection, once, with its error -/
+
+/-- `s'` is `s` after its connection — live, not yet failed, Disconnect not called — was ended with error `e`:
+    Done() is closed; Err() was nil and is now `e`; the state is Closed; exactly one more callback was made,
+    `(Closed, e)`, and it is the only Closed report; every call that was blocked has returned
+    ErrClosedTransport, every other call keeps its result, nobody is blocked any more; nothing was written. -/
+structure ClosedWith (s s' : St) (e : ErrClass) : Prop where
+  done : s'.doneClosed = true
+  errBefore : s.err = none
+  err : s'.err = some e
+  state : s'.state = .closed
+  callbacks : s'.callbacks = s.callbacks ++ [(.closed, some e)]
+  closedOnce : (cbStates s').count .closed = 1
+  released : ∀ (j : Nat) (c : Call), s.calls[j]? = some c → blocked c = true →
+    s'.calls[j]? = some { c with phase := .returned (.closed (ctxRetry c.phase)) }
+  kept : ∀ (j : Nat) (c : Call), s.calls[j]? = some c → blocked c = false → s'.calls[j]? = some c
+  noneBlocked : ∀ (j : Nat) (c' : Call), s'.calls[j]? = some c' → blocked c' = false
+  writes : s'.writes = s.writes
+
+/-- one step, any state: what the failing acknowledgement write does to the connection-level fields -/
+theorem ack_write_failure_step (s : St) (p : In) (hi : s.inited = true) (hd : s.doneClosed = false)
+    (hf : ackFails s p = true) :
+    let s' := step s (.inb p)
+    s'.doneClosed = true ∧ s'.transportOpen = false ∧ s'.writes = s.writes ∧
+    s'.err = (if s.state ≠ .disconnected ∧ s.err = none then some .other else s.err) ∧
+    s'.state = (if s.state = .disconnected then .disconnected else .closed) ∧
+    s'.callbacks =
+      (if s.state = .disconnected ∨ s.state = .closed then s.callbacks else s.callbacks ++ [(.closed, s'.err)]) := by
+  simp only [step]
+  rw [inbound_ack_fails s p hi hd hf]
+  refine ⟨by simp, by simp, by simp, ?_, ?_, ?_⟩
+  · simp only [endNow_err, endErr, appDropped_state, appDropped_err]
+    cases s.err <;> simp
+  · simp [nextState]
+  · simp only [endNow_callbacks, nextState, endNow_err, endErr, appDropped_state, appDropped_err,
+      appDropped_callbacks]
+    by_cases h1 : s.state = .disconnected <;> by_cases h2 : s.state = .closed <;> simp [h1, h2]
+
+/-- In every reachable state with a live reader on which Disconnect has not been called and which cannot
+    write (transport closed under it, or refusing writes): an inbound PUBLISH with QoS ≠ 0, or a PUBREL of a
+    remembered id, ends the connection: `ClosedWith … .other`, and the event is a connection end in the sense
+    of C11 (so `C11.connection_end_releases_all`, `C11.connection_end_result`, `C11.no_stuck_call` apply). -/
+theorem ack_write_failure_closes (evs : List Ev) (p : In)
+    (hi : (run evs).inited = true) (hd : (run evs).doneClosed = false)
+    (hst : (run evs).state ≠ .disconnected) (hw : canWrite (run evs) = false)
+    (hp : (∃ q id, p = .publish q id ∧ q ≠ 0) ∨ (∃ id, p = .pubrel id ∧ id ∈ (run evs).inQ2)) :
+    ClosedWith (run evs) (run (evs ++ [.inb p])) .other ∧ C11.IsConnEnd (run evs) (.inb p) := by
+  have hf : ackFails (run evs) p = true := (C11.ackFails_iff _ p).2 ⟨hw, hp⟩
+  have hce : C11.IsConnEnd (run evs) (.inb p) := Or.inr (Or.inr (Or.inr ⟨p, rfl, hf⟩))
+  have herr := err_nil_of_not_done evs hd
+  have hnc := no_closed_before_end evs hd
+  have hsh := callbacks_by_state evs
+  have hncl : (run evs).state ≠ .closed := by
+    intro h; rw [h] at hsh; simp only [Shape] at hsh; rw [hd] at hsh; cases hsh.2
+  rw [run_snoc]
+  obtain ⟨h1, _, h3, h4, h5, h6⟩ := ack_write_failure_step (run evs) p hi hd hf
+  generalize run evs = s at *
+  have hall := C11.connection_end_releases_all s (.inb p) hce hi hd
+  have herr' : (step s (.inb p)).err = some .other := by rw [h4, if_pos ⟨hst, herr⟩]
+  have hcb : (step s (.inb p)).callbacks = s.callbacks ++ [(.closed, some .other)] := by
+    rw [h6, if_neg (by simp [hst, hncl]), herr']
+  refine ⟨⟨h1, herr, herr', by rw [h5, if_neg hst], hcb, ?_, ?_, hall.2.2.2.2.1, hall.2.2.1, h3⟩, hce⟩
+  · have : cbStates (step s (.inb p)) = cbStates s ++ [.closed] := by simp [cbStates, hcb]
+    rw [this, List.count_append, List.count_eq_zero.2 hnc]; rfl
+  · intro j c hc hb
+    exact C11.connection_end_result s (.inb p) hce hi hd j c hc hb
+
+/-- the two cases by name, with the hypotheses spelled out -/
+theorem ack_write_failure_closes_publish (evs : List Ev) (q id : Nat) (hq : q = 1 ∨ q = 2)
+    (hi : (run evs).inited = true) (hd : (run evs).doneClosed = false)
+    (hst : (run evs).state ≠ .disconnected) (hw : canWrite (run evs) = false) :
+    ClosedWith (run evs) (run (evs ++ [.inb (.publish q id)])) .other :=
+  (ack_write_failure_closes evs _ hi hd hst hw (Or.inl ⟨q, id, rfl, by omega⟩)).1
+
+theorem ack_write_failure_closes_pubrel (evs : List Ev) (id : Nat) (hm : id ∈ (run evs).inQ2)
+    (hi : (run evs).inited = true) (hd : (run evs).doneClosed = false)
+    (hst : (run evs).state ≠ .disconnected) (hw : canWrite (run evs) = false) :
+    ClosedWith (run evs) (run (evs ++ [.inb (.pubrel id)])) .other :=
+  (ack_write_failure_closes evs _ hi hd hst hw (Or.inr ⟨id, rfl, hm⟩)).1
+
+/-- After Disconnect the same event still ends the reader (Done() closed, calls released: C11), but, as for
+    every other connection end, no Closed is reported and Err() stays nil: `graceful_disconnect`. -/
+theorem ack_write_failure_after_disconnect (s : St) (p : In) (hi : s.inited = true) (hd : s.doneClosed = false)
+    (hf : ackFails s p = true) (hst : s.state = .disconnected) :
+    (step s (.inb p)).doneClosed = true ∧ (step s (.inb p)).err = s.err ∧
+    (step s (.inb p)).callbacks = s.callbacks ∧ (step s (.inb p)).state = .disconnected := by
+  obtain ⟨h1, _, _, h4, h5, h6⟩ := ack_write_failure_step s p hi hd hf
+  refine ⟨h1, ?_, ?_, ?_⟩
+  · rw [h4, if_neg (by simp [hst])]
+  · rw [h6, if_pos (Or.inl hst)]
+  · rw [h5, if_pos hst]
+
+/-! ### … and while the client can write, application traffic only writes acknowledgements -/
+
+/-- With a live reader and a transport that accepts writes, an inbound PUBLISH / PUBREL changes only `writes`
+    — appending exactly the acknowledgement that the MQTT flow prescribes: PUBACK id for QoS 1, PUBREC id for
+    QoS 2, PUBCOMP id for the PUBREL of a remembered id, nothing for QoS 0 or an unknown PUBREL — and `inQ2`
+    (QoS 2: the id is remembered; PUBREL: it is forgotten).  Every other field — the call records, the signaller
+    maps, the callbacks, `err`, `state`, `doneClosed` — is untouched, so the theorems about calls (C07) are not
+    disturbed by application traffic. -/
+theorem inbound_publish_inert_when_writable (s : St) (hi : s.inited = true) (hd : s.doneClosed = false)
+    (hw : canWrite s = true) :
+    (∀ q id, step s (.inb (.publish q id)) =
+      { s with writes := s.writes ++ (if q = 0 then [] else if q = 1 then [.puback id] else [.pubrec id]),
+               inQ2 := if q = 0 ∨ q = 1 then s.inQ2 else id :: s.inQ2.filter (· ≠ id) }) ∧
+    (∀ id, step s (.inb (.pubrel id)) =
+      { s with writes := s.writes ++ (if id ∈ s.inQ2 then [.pubcomp id] else []),
+               inQ2 := s.inQ2.filter (· ≠ id) }) := by
+  constructor
+  · intro q id
+    simp only [step]
+    rw [inbound_app_eq s _ hi hd rfl]
+    by_cases h0 : q = 0
+    · simp [needsAck, h0]
+    · by_cases h1 : q = 1 <;> simp [needsAck, h0, h1, hw, appAcked, appWrites, appQ2]
+  · intro id
+    simp only [step]
+    rw [inbound_app_eq s _ hi hd rfl]
+    by_cases hm : id ∈ s.inQ2
+    · simp [needsAck, hm, hw, appAcked, appWrites, appQ2]
+    · have hfl : s.inQ2.filter (fun x => !decide (x = id)) = s.inQ2 :=
+        List.filter_eq_self.2 (fun a ha => by simp; rintro rfl; exact hm ha)
+      simp [needsAck, hm]
+      rw [hfl]
+
+/-- the same, field by field, for ANY state in which the client can write (a reader that is not running
+    ignores the packet altogether) and for both packet kinds at once -/
+theorem inbound_publish_only_writes (s : St) (p : In) (hp : isApp p = true) (hw : canWrite s = true) :
+    let s' := step s (.inb p)
+    s'.calls = s.calls ∧ s'.callbacks = s.callbacks ∧ s'.err = s.err ∧ s'.state = s.state ∧
+    s'.doneClosed = s.doneClosed ∧ s'.inited = s.inited ∧ s'.transportOpen = s.transportOpen ∧
+    s'.writeFails = s.writeFails ∧ s'.pubAck = s.pubAck ∧ s'.pubRec = s.pubRec ∧ s'.pubComp = s.pubComp ∧
+    s'.subAck = s.subAck ∧ s'.unsubAck = s.unsubAck ∧ s'.connAck = s.connAck ∧ s'.pingResp = s.pingResp ∧
+    ∃ l, s'.writes = s.writes ++ l ∧ (∀ w ∈ l, isInAckW w = true) ∧
+      (l = [] ∨ (s.inited = true ∧ s.doneClosed = false ∧ needsAck s p = true ∧ l = appWrites p)) := by
+  intro s'
+  have nil : ∃ l : List W, s.writes = s.writes ++ l ∧ (∀ w ∈ l, isInAckW w = true) ∧
+      (l = [] ∨ (s.inited = true ∧ s.doneClosed = false ∧ needsAck s p = true ∧ l = appWrites p)) :=
+    ⟨[], by simp, by simp, Or.inl rfl⟩
+  by_cases hl : s.doneClosed = true ∨ s.inited = false
+  · have : s' = s := inbound_not_live s p hl
+    rw [this]
+    exact ⟨rfl, rfl, rfl, rfl, rfl, rfl, rfl, rfl, rfl, rfl, rfl, rfl, rfl, rfl, rfl, nil⟩
+  · have hi : s.inited = true := by cases h' : s.inited <;> simp_all
+    have hd : s.doneClosed = false := by cases h' : s.doneClosed <;> simp_all
+    have e : s' = if needsAck s p = true then appAcked s p else s := by
+      show inbound s p = _
+      rw [inbound_app_eq s p hi hd hp, if_pos hw]
+    rcases Bool.eq_false_or_eq_true (needsAck s p) with hn | hn
+    · rw [if_pos hn] at e
+      rw [e]
+      refine ⟨rfl, rfl, rfl, rfl, rfl, rfl, rfl, rfl, rfl, rfl, rfl, rfl, rfl, rfl, rfl,
+        appWrites p, rfl, ?_, Or.inr ⟨hi, hd, hn, rfl⟩⟩
+      cases p <;> first | (simp [needsAck] at hn; done) | skip
+      · intro w hw'; simp only [appWrites] at hw'; split at hw' <;> simp at hw' <;> subst hw' <;> rfl
+      · intro w hw'; simp only [appWrites, List.mem_singleton] at hw'; subst hw'; rfl
+    · rw [if_neg (by simp [hn])] at e
+      rw [e]
+      exact ⟨rfl, rfl, rfl, rfl, rfl, rfl, rfl, rfl, rfl, rfl, rfl, rfl, rfl, rfl, rfl, nil⟩
+
+/-- in a reachable state "can write" already implies that the reader is running (a finished reader has
+    closed the transport), so only `inited` has to be assumed -/
+theorem inbound_publish_inert_reachable (evs : List Ev) (hi : (run evs).inited = true)
+    (hw : canWrite (run evs) = true) (q id : Nat) :
+    run (evs ++ [.inb (.publish q id)]) =
+      { run evs with
+          writes := (run evs).writes ++ (if q = 0 then [] else if q = 1 then [.puback id] else [.pubrec id]),
+          inQ2 := if q = 0 ∨ q = 1 then (run evs).inQ2 else id :: (run evs).inQ2.filter (· ≠ id) } := by
+  rw [run_snoc]
+  exact (inbound_publish_inert_when_writable _ hi ((Live.onRun evs).not_done_of_canWrite hw) hw).1 q id
+
+/-! ### the inbound QoS 2 flow: PUBLISH → PUBREC, PUBREL → PUBCOMP -/
+
+/-- an id is remembered at most once -/
+theorem inQ2_nodup (evs : List Ev) : (run evs).inQ2.Nodup :=
+  run_inv (fun s => s.inQ2.Nodup) List.nodup_nil (fun s e h => inQ2_nodup_step (step_rel s e) h) evs
+
+/-- the invariant behind `pubrel_acked_once`: for every id, the PUBCOMPs written, plus one if the id is still
+    remembered (a PUBCOMP still owed), never exceed the PUBRECs written -/
+theorem q2inv_reachable (evs : List Ev) : Q2Inv (run evs) :=
+  run_inv Q2Inv Q2Inv.init (fun s e h => h.onStep (step_rel s e)) evs
+
+theorem pubrec_count_foldl (id : Nat) : ∀ (evs : List Ev) (s : St),
+    (evs.foldl step s).writes.count (.pubrec id) ≤ s.writes.count (.pubrec id) + evs.countP (isQ2Pub id)
+  | [], s => by simp
+  | e :: es, s => by
+    have h1 := pubrec_count_foldl id es (step s e)
+    have h2 := pubrec_count_step (step_rel s e) id
+    simp only [List.foldl_cons, List.countP_cons]
+    omega
+
+theorem pubcomp_count_foldl (id : Nat) : ∀ (evs : List Ev) (s : St),
+    (evs.foldl step s).writes.count (.pubcomp id) ≤ s.writes.count (.pubcomp id) + evs.countP (isPubrelEv id)
+  | [], s => by simp
+  | e :: es, s => by
+    have h1 := pubcomp_count_foldl id es (step s e)
+    have h2 := pubcomp_count_step (step_rel s e) id
+    simp only [List.foldl_cons, List.countP_cons]
+    omega
+
+/-- Along any run, for every packet id: a PUBCOMP is only ever sent for a message that was PUBREC'd
+    (#PUBCOMP id written ≤ #PUBREC id written; one less while the id is still remembered), a PUBREC only for
+    an inbound QoS 2 PUBLISH with that id (`isQ2Pub`: the reader treats every QoS other than 0 and 1 as 2),
+    and a PUBCOMP only for an inbound PUBREL with that id. -/
+theorem pubrel_acked_once (evs : List Ev) (id : Nat) :
+    (run evs).writes.count (.pubcomp id) ≤ (run evs).writes.count (.pubrec id) ∧
+    (run evs).writes.count (.pubrec id) ≤ evs.countP (isQ2Pub id) ∧
+    (run evs).writes.count (.pubcomp id) + (if id ∈ (run evs).inQ2 then 1 else 0) ≤
+      (run evs).writes.count (.pubrec id) ∧
+    (run evs).writes.count (.pubcomp id) ≤ evs.countP (isPubrelEv id) := by
+  have h1 := q2inv_reachable evs id
+  have h2 := pubrec_count_foldl id evs {}
+  have h3 := pubcomp_count_foldl id evs {}
+  simp only [List.count_nil, Nat.zero_add] at h2 h3
+  refine ⟨?_, h2, h1, h3⟩
+  split at h1 <;> omega
+
 /-! ### Non-vacuity -/
 
 def cbs (evs : List Ev) : List (ConnState × Option ErrClass) := (run evs).callbacks
@@ -359,5 +577,47 @@ example : cbs [.call .connect 0, .inb (.connack false 0), .peerClose, .call .dis
 -- a second Connect does not produce a second Active
 example : cbs [.call .connect 0, .inb (.connack false 0), .call .connect 0, .inb (.connack false 0)] =
     [(.active, none)] := by decide
+
+
+-- the acknowledgement of an inbound PUBREL cannot be written: Closed once, with the error; Done() closed
+def ackFailRun : List Ev :=
+  [.call .connect 0, .inb (.connack false 0), .inb (.publish 2 5), .writeFail true, .inb (.pubrel 5)]
+
+example : cbs ackFailRun = [(.active, none), (.closed, some .other)] := by decide
+example : (run ackFailRun).err = some .other ∧ (run ackFailRun).doneClosed = true ∧
+    (run ackFailRun).state = .closed ∧ (run ackFailRun).transportOpen = false ∧ (run ackFailRun).inQ2 = [] ∧
+    (run ackFailRun).writes = [.connect, .pubrec 5] := by decide
+-- the hypotheses of `ack_write_failure_closes_pubrel` / `_publish` hold on the state before the last event
+example : ClosedWith (run (ackFailRun.take 4)) (run ackFailRun) .other :=
+  ack_write_failure_closes_pubrel (ackFailRun.take 4) 5 (by decide) (by decide) (by decide) (by decide) (by decide)
+example : ClosedWith (run [.call .connect 0, .writeFail true])
+    (run ([.call .connect 0, .writeFail true] ++ [.inb (.publish 1 7)])) .other :=
+  ack_write_failure_closes_publish _ 1 7 (Or.inl rfl) (by decide) (by decide) (by decide) (by decide)
+example : cbs [.call .connect 0, .inb (.connack false 0), .writeFail true, .inb (.publish 1 7), .inb (.publish 2 8),
+    .peerClose] = [(.active, none), (.closed, some .other)] := by decide     -- reported once
+-- a blocked call is released by it
+example : (run [.call .connect 0, .inb (.connack false 0), .call .pub1 3, .writeFail true, .inb (.publish 2 7)]).calls.map
+    (·.phase) = [.returned .ok, .returned (.closed true)] := by decide
+-- QoS 0 / an unknown PUBREL need no acknowledgement: nothing happens even though the client cannot write
+example : cbs [.call .connect 0, .inb (.connack false 0), .writeFail true, .inb (.publish 0 7), .inb (.pubrel 7)] =
+    [(.active, none)] := by decide
+-- after Disconnect: no Closed, Err() nil
+example : cbs [.call .connect 0, .inb (.connack false 0), .writeFail true, .call .disconnect 0, .inb (.publish 1 7)] =
+    [(.active, none), (.disconnected, none)] ∧
+    (run [.call .connect 0, .inb (.connack false 0), .writeFail true, .call .disconnect 0, .inb (.publish 1 7)]).doneClosed
+      = true := by decide
+
+-- while writable: exactly the prescribed acknowledgements, in order; nothing else moves
+example : (run [.call .connect 0, .inb (.connack false 0), .inb (.publish 0 1), .inb (.publish 1 2), .inb (.publish 2 3),
+    .inb (.pubrel 9), .inb (.pubrel 3), .inb (.pubrel 3)]).writes = [.connect, .puback 2, .pubrec 3, .pubcomp 3] := by
+  decide
+example : (run [.call .connect 0, .inb (.connack false 0), .inb (.publish 2 3), .inb (.publish 2 4), .inb (.publish 2 3)]).inQ2
+    = [3, 4] := by decide        -- a re-delivered QoS 2 PUBLISH is PUBREC'd again but remembered once
+example : cbs [.call .connect 0, .inb (.connack false 0), .inb (.publish 1 2), .inb (.publish 2 3), .inb (.pubrel 3)] =
+    [(.active, none)] := by decide
+-- the counting theorem is tight: two PUBLISH 2 3, one PUBREL 3 answered, a second PUBREL 3 ignored
+example : let s := run [.call .connect 0, .inb (.connack false 0), .inb (.publish 2 3), .inb (.publish 2 3),
+      .inb (.pubrel 3), .inb (.pubrel 3)]
+    s.writes.count (.pubrec 3) = 2 ∧ s.writes.count (.pubcomp 3) = 1 := by decide
 
 end Mqtt.C16
